@@ -247,6 +247,9 @@ class ProtocolMixin(object):
         if not name.startswith(u"{"):
             name = u'{%s}%s' % (self.app.interface.get_tns(), name)
 
+        # a request message declared in another namespace than the application's
+        name = self.app.interface.method_key_aliases.get(name, name)
+
         call_handles = self.app.interface.service_method_map.get(name, [])
 
         return call_handles
